@@ -27,25 +27,23 @@ RULE = ('cases: pragmatic problem documents built from a valid base (1-3 jobs of
 TRUSTED = ['RFC 3339 parsing (time crate) is an oracle: every time string travels with the parse result the generator assigns to it; '
            'the generator only emits strings whose status is unambiguous (validated each run: a wrong mark shows up as a disagreement)',
            'serde deserialisation of the generated JSON into format/problem/model.rs types (the reduced document of the model is mapped to JSON by tools/props/c10.py::to_json)',
-           'create_transport_costs on supplied matrices is modelled (Model/Validation.v run_transport) and compared on a separate stream; which cells of a matrix truncated by a short errorCodes array are looked up later is not modelled',
+           'create_transport_costs on supplied matrices is modelled (Model/Validation.v run_transport) and compared on a separate stream; matrix timestamps are not in the Coq model (python reference: an unparsable timestamp is E0002)',
            'rules of the relation / objective groups and E1502/E1503 are checked against a python reference (tools/props/c10.py), not against a Coq model',
            'tools/rules2coq.py (regex extraction of the rule tables from validation/*.rs and the error index page)']
 ASSUMPTIONS = ['documents of the proved fragment: no relations, objectives, clustering, recharges, skills, limits; coordinate locations, all distinct; integer-valued numbers; |demand| small (no i32 overflow)',
-               'adopted readings R1-R9 of the documentation page (Spec/Rules.v header)']
+               'adopted readings R1-R10 of the documentation page (Spec/Rules.v header)']
 
 BASE = 1593820800   # 2020-07-04T00:00:00Z
 FAR = 7274016000    # 2200-07-04T00:00:00Z
 H = 3600
 
 # K1-K3 (windows(2).any / E1103 skipping replacement+service tasks / check_e1303 parse_time panic) were repaired in /repo
-# (c324ed4, d5aa3e7, 89050ae): no longer known classes, a recurrence is reported as a violation.
-KNAMES = {4: 'shift-start-latest-unparsable-unchecked-panics-in-reader',
-          5: 'optional-break-offset-list-arity-unchecked-panics-in-reader',
-          6: 'empty-capacity-vector-unchecked-panics-in-reader',
+# (c324ed4, d5aa3e7, 89050ae), K4 (unparsable start.latest), K5 (optional offset break that is not a pair) and K10 (no profile, no
+# matrix) by d67b161, 7653bff, 11fbd19: no longer known classes, a recurrence is reported as a violation.
+KNAMES = {6: 'empty-capacity-vector-unchecked-panics-in-reader',
           7: 'more-than-8-load-dimensions-unchecked-panics',
           8: 'e1102-reported-for-empty-demand-vectors',
-          9: 'fleet-without-any-vehicle-panics-in-reader',
-          10: 'no-profiles-without-matrix-panics-before-validation'}
+          9: 'fleet-without-any-vehicle-panics-in-reader'}
 
 
 # ------------------------------------------------------------------ time strings
@@ -782,7 +780,7 @@ def model_term(c):
             % c_doc(c['doc']))
 
 
-# ------------------------------------------------------------------ the documented rules in python (from the error index page; R1-R9 as in Spec/Rules.v)
+# ------------------------------------------------------------------ the documented rules in python (from the error index page; R1-R10 as in Spec/Rules.v)
 def p_window(w):
     if len(w) == 2 and w[0][1] is not None and w[1][1] is not None:
         return (w[0][1], w[1][1])
@@ -824,6 +822,9 @@ def break_windows(s, bs):
     for b in bs:
         if b[0] == 'otw':
             out.append(p_window(b[1]))
+        elif b[0] == 'ooff':
+            if len(b[1]) != 2:          # R6: an optional offset break must be a pair of numbers; a well-formed one has no window
+                out.append(None)
         elif b[0] == 'roff':
             dep = s['earliest'][1]
             out.append((dep + b[1], dep + b[2] + b[3]) if dep is not None else None)
@@ -874,7 +875,9 @@ def py_spec(d):
         a = s['earliest'][1]
         b = s['end'][1] if s['end'] is not None else a
         return (a, b) if a is not None and b is not None else None
-    if any(not (len(v['shifts']) > 0 and windows_ok(False, [shift_window(s) for s in v['shifts']])) for v in vs):
+    if any(not (len(v['shifts']) > 0 and windows_ok(False, [shift_window(s) for s in v['shifts']]))
+           or any(s['latest'] is not None and s['latest'][1] is None for s in v['shifts'])       # R10: start.latest must be a date
+           for v in vs):
         out.append(1302)
     e1303 = e1304 = False
     for v in vs:
@@ -915,10 +918,6 @@ def py_spec(d):
 def py_known(d):
     out = []
     jobs, vs = d['jobs'], d['vehicles']
-    if any(s['latest'] is not None and s['latest'][1] is None for v in vs for s in v['shifts']):
-        out.append(4)
-    if any(b[0] == 'ooff' and len(b[1]) != 2 for v in vs for s in v['shifts'] for b in (s['breaks'] or [])):
-        out.append(5)
     if any(len(v['capacity']) == 0 for v in vs):
         out.append(6)
     if any(len(v['capacity']) > 8 for v in vs) or any(len(t['demand'] or []) > 8 for j in jobs for t in job_tasks(j)):
@@ -927,8 +926,6 @@ def py_known(d):
         out.append(8)
     if all(len(v['vehicle_ids']) == 0 for v in vs):
         out.append(9)
-    if not d['profiles']:
-        out.append(10)
     return out
 
 
@@ -1131,13 +1128,15 @@ def shrink_candidates(c):
 
 MANIFEST_TEXT = ('Machine-checked proof (Coq, no axioms) over an executable model of the pragmatic validation (all E11xx job rules, all E13xx '
                  'vehicle rules, E1500/1501/1504/1505 as written in validation/*.rs, including the eager evaluation of '
-                 'every rule and the parse_time unwraps) and of the unwraps/asserts of the reader behind it: outside seven structurally defined known '
+                 'every rule and the parse_time unwraps) and of the unwraps/asserts of the reader behind it: outside four structurally defined known '
                  'deviation classes, reading never panics, a document is accepted iff it breaks none of the documented rules (written '
                  'independently from the error index page) and the reported codes are exactly the broken rules; each known class has a '
-                 'machine-checked witness (six panics, one wrongly reported code); three earlier classes were repaired in /repo and are covered by the theorems now. The rule tables are '
+                 'machine-checked witness (three panics, one wrongly reported code); six earlier classes (K1-K5, K10) and three crash classes outside the Coq fragment '
+                 '(X12 location index outside the matrix, X13 unparsable matrix timestamp, X15 short errorCodes) were repaired in /repo and are covered by the theorems / the reference now '
+                 '(a successful matrix step is proved to yield full square cost vectors that cover the given distances). The rule tables are '
                  're-extracted from the Rust sources and the documentation on every run and the completeness theorem is re-proved against them. '
                  'Model and spec are tied to /repo on every run by evaluating them inside Coq (vm_compute) on generated documents and diffing '
                  'with the real ValidationContext::validate and String::read_pragmatic under catch_unwind.')
 MANIFEST_NOTE = ('Relation (E12xx) and objective (E16xx) rules, E1502/E1503 and matrix handling are checked against a python reference only. '
-                 'RFC 3339 parsing is an oracle. Adopted readings R1-R9 of the documentation are listed in Spec/Rules.v.')
+                 'RFC 3339 parsing is an oracle. Adopted readings R1-R10 of the documentation are listed in Spec/Rules.v.')
 MANIFEST_TECHNIQUE = 'Coq proof over executable model + vm_compute differential correspondence with the Rust implementation'
